@@ -185,17 +185,20 @@ def register(name):
     return deco
 
 
-def regenerate():
+def regenerate(outdir=None):
     """Returns (all_ok, [(name, ok, message)]).  Writes a file only when its content changed, so that
-    make rebuilds dependents exactly when the source constants changed."""
+    make rebuilds dependents exactly when the source constants changed.
+    outdir: where to write (default: coq/theories/Extracted; scratch runs of test_translate.py write elsewhere)."""
     try:
         import extract_more  # noqa: F401  (registers further extractors)
     except ImportError:
         pass
-    os.makedirs(OUT, exist_ok=True)
+    import translate_py  # noqa: F401  (registers the translated functions Gen*.v)
+    out = outdir or OUT
+    os.makedirs(out, exist_ok=True)
     msgs, all_ok = [], True
     for name, fn in EXTRACTORS.items():
-        path = os.path.join(OUT, name + ".v")
+        path = os.path.join(out, name + ".v")
         try:
             content = fn()
             old = open(path).read() if os.path.exists(path) else None
@@ -209,4 +212,13 @@ def regenerate():
 
 
 if __name__ == "__main__":
-    print(regenerate())
+    # usage: extract_constants.py [outdir]   (the module is re-imported under its own name: the extractors of
+    # extract_more / translate_py register themselves into `extract_constants.EXTRACTORS`, not into `__main__`)
+    import sys
+
+    import extract_constants as _ec
+
+    _ok, _msgs = _ec.regenerate(sys.argv[1] if len(sys.argv) > 1 else None)
+    for _m in _msgs:
+        print(_m)
+    sys.exit(0 if _ok else 1)
